@@ -18,6 +18,19 @@ static std::map<int, std::unique_ptr<Bytes>> blocks;
 static std::vector<std::unique_ptr<Bytes>> graveyard;   // replaced buffers stay allocated: views may still point into them
 static std::vector<std::pair<std::string, std::string>> universe;
 
+struct NoView : std::exception {};
+struct NoBlk : std::exception {};
+static bloom_filter& V(const std::string& id) {
+  auto it = views.find(atoi(id.c_str()));
+  if (it == views.end() || !it->second) throw NoView();
+  return *it->second;
+}
+static Bytes& B(const std::string& id) {
+  auto it = blocks.find(atoi(id.c_str()));
+  if (it == blocks.end()) throw NoBlk();
+  return *it->second;
+}
+
 static uint64_t u64(const std::string& s) { return strtoull(s.c_str(), nullptr, 10); }
 
 template<typename F>
@@ -98,41 +111,41 @@ static std::string op_step(const std::vector<std::string>& w) {
   }
   if (op == "init") {
     int v = atoi(w[1].c_str());
-    Bytes& b = *blocks.at(atoi(w[2].c_str()));
+    Bytes& b = B(w[2]);
     auto f = bloom_filter::builder::initialize_by_size(b.data(), b.size(), u64(w[3]), (uint16_t)u64(w[4]), u64(w[5]));
     put_view(v, new bloom_filter(std::move(f)));
     return "ok";
   }
   if (op == "initacc") {
     int v = atoi(w[1].c_str());
-    Bytes& b = *blocks.at(atoi(w[2].c_str()));
+    Bytes& b = B(w[2]);
     auto f = bloom_filter::builder::initialize_by_accuracy(b.data(), b.size(), u64(w[3]), vh::f64_of_hex(w[4]), u64(w[5]));
     put_view(v, new bloom_filter(std::move(f)));
     return "ok";
   }
-  if (op == "upd") { do_update(*views.at(atoi(w[1].c_str())), w[2], w[3]); return "ok"; }
-  if (op == "qau") { return do_qau(*views.at(atoi(w[1].c_str())), w[2], w[3]) ? "b1" : "b0"; }
-  if (op == "q") { return do_query(*views.at(atoi(w[1].c_str())), w[2], w[3]) ? "b1" : "b0"; }
-  if (op == "bits") { return "n" + std::to_string(views.at(atoi(w[1].c_str()))->get_bits_used()); }
-  if (op == "reset") { views.at(atoi(w[1].c_str()))->reset(); return "ok"; }
+  if (op == "upd") { do_update(V(w[1]), w[2], w[3]); return "ok"; }
+  if (op == "qau") { return do_qau(V(w[1]), w[2], w[3]) ? "b1" : "b0"; }
+  if (op == "q") { return do_query(V(w[1]), w[2], w[3]) ? "b1" : "b0"; }
+  if (op == "bits") { return "n" + std::to_string(V(w[1]).get_bits_used()); }
+  if (op == "reset") { V(w[1]).reset(); return "ok"; }
   if (op == "union" || op == "inter") {
-    bloom_filter& f = *views.at(atoi(w[1].c_str()));
-    const bloom_filter& g = *views.at(atoi(w[2].c_str()));
+    bloom_filter& f = V(w[1]);
+    const bloom_filter& g = V(w[2]);
     if (op == "union") f.union_with(g); else f.intersect(g);
     return "n" + std::to_string(f.get_bits_used());
   }
   if (op == "invert") {
-    bloom_filter& f = *views.at(atoi(w[1].c_str()));
+    bloom_filter& f = V(w[1]);
     f.invert();
     return "n" + std::to_string(f.get_bits_used());
   }
   if (op == "copy") {
-    const bloom_filter& f = *views.at(atoi(w[1].c_str()));
-    views[atoi(w[2].c_str())].reset(new bloom_filter(f));
+    const bloom_filter& f = V(w[1]);
+    put_view(atoi(w[2].c_str()), new bloom_filter(f));
     return "ok";
   }
   if (op == "ser") {
-    const bloom_filter& f = *views.at(atoi(w[1].c_str()));
+    const bloom_filter& f = V(w[1]);
     std::unique_ptr<Bytes> b(new Bytes());
     if (w[3] == "1") {
       std::ostringstream ss(std::ios::binary);
@@ -147,7 +160,7 @@ static std::string op_step(const std::vector<std::string>& w) {
     return "ok";
   }
   if (op == "deser") {
-    const Bytes& b = *blocks.at(atoi(w[1].c_str()));
+    const Bytes& b = B(w[1]);
     int v = atoi(w[2].c_str());
     if (w[3] == "1") {
       std::istringstream ss(std::string(b.begin(), b.end()), std::ios::binary);
@@ -158,24 +171,26 @@ static std::string op_step(const std::vector<std::string>& w) {
     return "ok";
   }
   if (op == "wrap") {
-    const Bytes& b = *blocks.at(atoi(w[1].c_str()));
+    const Bytes& b = B(w[1]);
     int v = atoi(w[2].c_str());
     put_view(v, new bloom_filter(bloom_filter::wrap(b.data(), b.size())));
     return "ok";
   }
   if (op == "wwrap") {
-    Bytes& b = *blocks.at(atoi(w[1].c_str()));
+    Bytes& b = B(w[1]);
     int v = atoi(w[2].c_str());
     put_view(v, new bloom_filter(bloom_filter::writable_wrap(b.data(), b.size())));
     return "ok";
   }
-  if (op == "drop") { views.erase(atoi(w[1].c_str())); return "ok"; }
+  if (op == "drop") { V(w[1]); views.erase(atoi(w[1].c_str())); return "ok"; }
   return "bad-op";
 }
 
 static std::string step(const std::vector<std::string>& w) {
   std::string out;
   try { out = op_step(w); }
+  catch (const NoView&) { out = "noview"; }
+  catch (const NoBlk&) { out = "noblk"; }
   catch (const std::exception& e) { out = "throw"; if (getenv("VH_VERBOSE")) std::cerr << e.what() << "\n"; }
   if (out == "bad-op") return out;
   return observe(out);
